@@ -48,7 +48,7 @@ template <class Pixel> struct src_interleaved : src_base {
     using view_t = typename gil::type_from_x_iterator<Pixel*>::view_t;
     static constexpr bool addressable = true;
     vbuf b; long rowbytes = 0;
-    view_t make() { dims(); int pad = padv(3); rowbytes = (long)w * (long)sizeof(Pixel) + pad;
+    view_t make() { dims(); int pad = padv(3); rowbytes = (long)w * (long)sizeof(Pixel) + pad * (long)alignof(Pixel);   // padding in units of the pixel's alignment: a misaligned row is the caller's undefined behaviour, not GIL's
         b.get((unsigned long)(h * rowbytes)); return gil::interleaved_view(w, h, (Pixel*)b.p, rowbytes); }
     static constexpr int nplanes = 1;
     unsigned char* plane(int) { return b.p; } unsigned long plane_size() const { return b.n; }
